@@ -95,6 +95,13 @@ CLAIMS["C12"] = {
     "technique": "static analysis: dispatch exhaustiveness over literal operator tables, constant flow of the stack limit, guard dominance for topology-changing statements",
 }
 
+CLAIMS["C19"] = {
+    "decides": "designspace writer/reader vocabulary agreement in both directions (elements and attributes, apart from audited ones); GLIF and plist element/attribute/type-dispatch agreement; file-name safety constants in both filename modules (single-character entries covering separators, NUL, controls, quote, Windows punctuation; 255 limit; reserved device names); userNameToFileName/handleClash1/2 return only names tested absent from `existing` or raise, clip with prefix and suffix; every caller seeds and updates `existing` lower-cased; continuous axis inverse table built from the validated map swapped and sorted by design value, discrete maps mirror, design-location defaults pass through map_forward; fontinfo version maps injective and derived.",
+    "design_ref": "DESIGN.md §3.2 F7, §3.6 F22/F25/F28, §4 C19",
+    "note": "Trusted: etree vocabulary extraction idioms in sa/rules/design.py; frozen MUST set of illegal characters. Not decided: number formatting round trips, nested lib equality, behaviour on non-monotone maps.",
+    "technique": "static analysis: writer/reader vocabulary set comparison, constant folding of safety tables, guard dominance over returns, caller discipline (who-must-update) check",
+}
+
 _PENDING = "check not built yet in this round (planned structural clauses in DESIGN.md §4); not claimed until its check exists"
 NOT_APPLICABLE = {
     "C05": "numeric equality of outlines/advances with independent rasterisers at every location: runtime values only; no structural clause that is a necessary condition and survives refactoring (DESIGN §4 C05)",
@@ -102,5 +109,5 @@ NOT_APPLICABLE = {
     "C14": "geometric equality through pen adapters over all call sequences: adapters may legally buffer/merge/re-emit calls, so no forwarding-shape rule is both necessary and refactoring-stable (DESIGN §4 C14)",
     "C18": "rendering equivalence of merged fonts: only weak structural facts (first-writer-wins cmap guard) exist, not enough for a necessary-condition clause (DESIGN §4 C18)",
 }
-for _p in ("C10", "C19"):
+for _p in ("C10",):
     NOT_APPLICABLE[_p] = _PENDING
